@@ -11,6 +11,7 @@ import pathlib
 import sys
 
 sys.path.insert(0, str(pathlib.Path(__file__).resolve().parent))
+import _rb_common  # noqa: E402
 from _rb_common import COMMON, Bad, find_method, lean_prop, match, negate, prop, tr  # noqa: E402
 
 NAME = "RingBufferQuery"
@@ -55,9 +56,9 @@ def window(self, start, end, *, force_copy=True, fill_value=np.nan):
     end = HOLE_clamp_e
     if HOLE_nonempty:
         window = self._wrapped_buffer_window(self._buffer, self.to_internal_index(start), self.to_internal_index(end), force_copy)
-        if fill_value is None:
-            return window
-        return self._fill_gaps(window, fill_value, HOLE_origin, self.gaps)
+        if fill_value is not None:
+            return self._fill_gaps(window, fill_value, HOLE_origin, self.gaps)
+        return window
     if isinstance(self._buffer, np.ndarray):
         return np.array([])
     return []
@@ -80,7 +81,7 @@ SK_FILL = """
 def _fill_gaps(self, data, fill_value, oldest_timestamp, gaps):
     for gap in gaps:
         end_index = min(HOLE_ei, len(data))
-        if max(HOLE_si, 0) < end_index:
+        if end_index > max(HOLE_si, 0):
             if isinstance(data, np.ndarray):
                 data[max(HOLE_si, 0):end_index] = fill_value
             elif isinstance(data, list):
@@ -135,7 +136,7 @@ def count_covered(self):
 
 SK_COUNT_VALID = """
 def count_valid(self):
-    if self._timestamp_newest == self._TIMESTAMP_MIN:
+    if self._TIMESTAMP_MIN == self._timestamp_newest:
         return 0
     end_pos = self.to_internal_index(self._timestamp_newest)
     start_pos = self.to_internal_index(self._timestamp_oldest)
@@ -183,6 +184,8 @@ def at(self, key):
 def generate(repo: pathlib.Path) -> str:
     buf = ast.parse((repo / SOURCES[0]).read_text())
     mw = ast.parse((repo / SOURCES[1]).read_text())
+    # (keyword arguments of `self._buffer.<method>(…)` in `MovingWindow` are bound through the ring buffer's signatures)
+    _rb_common.PEERS["_buffer"] = next(c for c in buf.body if isinstance(c, ast.ClassDef) and c.name == "OrderedRingBuffer")
     out: list[str] = []
 
     def emit_prop(name: str, params: str, body: str, doc: str) -> None:
